@@ -469,7 +469,7 @@ Proof.
   - destruct Hmax as (_ & Hl). rewrite Hl in Ht. destruct Ht.
 Qed.
 
-(* F1 (DESIGN section 8) after the repo fix ca83c00: a merge that REPLACES the stored version of a known id gives the id
+(* F1 (DESIGN section 8) after the repo fix 5c143bd: a merge that REPLACES the stored version of a known id gives the id
    the next version (and moves its version-index entry to the tail), so a QSince scan from any earlier version
    reaches it; the matcher index is untouched. *)
 Lemma merge_one_replace_reindexes x now ov S n e p :
